@@ -81,6 +81,22 @@ pub fn const_dist(v: f64) -> Dist {
 }
 
 fn small_value(r: &mut SplitMix64) -> f64 {
+    if r.chance(1, 8) {
+        // where a rounding rule shows: the neighbours of one half (0.5 - ulp rounds to 0 but + 0.5 gives 1.0),
+        // halves (away from zero, not to even), integers above 2^52 (x + 0.5 is not exact), almost-integers
+        return *r.pick(&[
+            0.49999999999999994,
+            0.5000000000000001,
+            0.9999999999999999,
+            1.4999999999999998,
+            3.5,
+            4.5,
+            4503599627370497.0,
+            4503599627370495.5,
+            9007199254740991.0,
+            5e-324,
+        ]);
+    }
     *r.pick(&[0.0, 0.0, 1.0, 1.0, 2.0, 3.0, 5.0, 10.0, 100.0, 1000.0, 1e6, 0.4, 0.5, 1.5, 2.5])
 }
 
@@ -182,6 +198,16 @@ pub fn gen_dist(r: &mut SplitMix64, mode: DistMode, families: bool) -> Dist {
 }
 
 pub fn gen_limit_dist(r: &mut SplitMix64, mode: DistMode) -> Dist {
+    // limits are ROUNDED samples: a share of them sits where rounding rules differ (see small_value), also
+    // reached through the start offset and the max clamp
+    if r.chance(1, 10) {
+        let v = *r.pick(&[0.49999999999999994, 0.5000000000000001, 1.4999999999999998, 2.5, 3.5, 0.9999999999999999, 4503599627370497.0]);
+        return match r.below(3) {
+            0 => const_dist(v),
+            1 => Dist::new(DistType::Uniform { low: 0.0, high: 0.0 }, v, 0.0),
+            _ => Dist::new(DistType::Uniform { low: 7.0, high: 7.0 }, 0.0, v),
+        };
+    }
     match mode {
         DistMode::Const => const_dist(r.range(0, 4) as f64),
         _ => {
